@@ -111,7 +111,18 @@ def props_report(pid):
     axioms = []
     for m in re.finditer(r"Axioms:\s*(.*?)(?=\n\S|\Z)", out, flags=re.S):
         axioms += [l.strip() for l in m.group(1).splitlines() if l.strip()]
-    return dict(theorems=thms, closed=closed, axioms=axioms, ok=(rc == 0), log=out[-4000:])
+    rep = dict(theorems=thms, closed=closed, axioms=axioms, ok=(rc == 0), log=out[-4000:])
+    if CURRENT_TIER == "thorough" and rc == 0:
+        # thorough tier: re-check the property module and everything it depends on with Coq's independent checker
+        rc2, out2 = sh(["coqchk", "-silent", "-o", "-Q", str(COQ / "theories"), "PC", "PC.Props." + pid],
+                       cwd=COQ, timeout=3000, mem_kb=24_000_000)
+        summ = [l.strip() for l in out2.splitlines() if l.strip().startswith("*")]
+        clean = rc2 == 0 and all("<none>" in l for l in summ if not l.startswith("* Theory"))
+        rep["coqchk"] = {"exit_code": rc2, "context_summary": summ, "clean": clean}
+        if not clean:
+            rep["ok"] = False
+            rep["log"] = "coqchk PC.Props.%s: rc=%d\n%s" % (pid, rc2, out2[-3000:])
+    return rep
 
 
 def coq_eval(vfile, timeout=900, mem_kb=12_000_000):
@@ -171,8 +182,13 @@ def build_harness(name, race=False, timeout=900):
 
 
 # ------------------------------------------------------------------------------------------- context
+CURRENT_TIER = "quick"
+
+
 class Ctx:
     def __init__(self, pid, tier, seed, replay=None):
+        global CURRENT_TIER
+        CURRENT_TIER = tier
         self.pid, self.tier, self.seed, self.replay = pid, tier, seed, replay
         self.t0 = time.time()
         self.rundir = BUILD / "run" / pid
@@ -257,5 +273,8 @@ def proof_coverage(report, extra):
            "axioms_reported_by_Print_Assumptions": report["axioms"] or ["none: every theorem 'Closed under the global context'"],
            "checker_cmd": "make -C /verif/coq (full .vo build) && coqc -Q coq/theories PC coq/theories/Props/<id>.v",
            "trusted_base": list(TRUSTED_COMMON)}
+    if "coqchk" in report:
+        cov["coqchk"] = report["coqchk"]
+        cov["checker_cmd"] += " && coqchk -silent -o -Q coq/theories PC PC.Props.<id>"
     cov.update(extra)
     return cov
